@@ -83,14 +83,67 @@ def determinism(props: list[str], n: int, procs: list[int], seed: int) -> int:
     return 1 if bad else 0
 
 
+def mutants(only: list[str] | None, wall: int) -> int:
+    """Sensitivity: every seeded change (independent sub-agents' and the author's own) must make its property's
+    check fail. Each patch is applied to a scratch copy of /repo/src (never to /repo); evidence and replay files of
+    these runs go to a scratch directory as well."""
+    import shutil
+    import subprocess
+    import tempfile
+
+    seeded = os.path.join(VERIF, "seeded")
+    dirs = []
+    for root in (seeded, os.path.join(seeded, "own")):
+        for name in sorted(os.listdir(root)):
+            d = os.path.join(root, name)
+            if os.path.isfile(os.path.join(d, "patch.diff")) and os.path.isfile(os.path.join(d, "meta.json")):
+                dirs.append((name, d))
+    if only:
+        dirs = [x for x in dirs if x[0] in only]
+    table = []
+    missed = 0
+    for name, d in dirs:
+        prop = json.load(open(os.path.join(d, "meta.json")))["property"]
+        scratch = tempfile.mkdtemp(prefix=f"simmut-{name}-")
+        try:
+            shutil.copytree("/repo/src", os.path.join(scratch, "src"))
+            r = subprocess.run(["git", "apply", os.path.join(d, "patch.diff")], cwd=scratch, capture_output=True, text=True)
+            if r.returncode != 0:
+                table.append({"mutant": name, "property": prop, "result": "patch does not apply", "detail": r.stderr[-200:]})
+                missed += 1
+                continue
+            env = dict(os.environ)
+            env.update({"VERIF_REPO_SRC": os.path.join(scratch, "src"), "VERIF_EVIDENCE_DIR": os.path.join(scratch, "evidence"),
+                        "VERIF_REPLAY_DIR": os.path.join(scratch, "replays"), "VERIF_WALL": str(wall)})
+            t0 = time.monotonic()
+            r = subprocess.run([os.path.join(VERIF, "check"), prop, "--tier", "quick"], env=env, capture_output=True, text=True)
+            lines = [ln for ln in r.stdout.splitlines() if ln.startswith("  C") or ln.startswith("VIOLATION")]
+            rules = sorted({ln.strip().split(" ")[0] for ln in lines if ln.startswith("  C")})
+            ok = r.returncode == 1 and any(ln.startswith("VIOLATION") for ln in lines)
+            table.append({"mutant": name, "property": prop, "result": "caught" if ok else f"MISSED (exit {r.returncode})", "rules": rules,
+                          "first": (lines[0][:260] if lines else ""), "wall_s": round(time.monotonic() - t0)})
+            missed += 0 if ok else 1
+            print(f"MUTANT {name:12s} {prop} {'caught' if ok else 'MISSED'} {rules} {round(time.monotonic() - t0)}s", flush=True)
+        finally:
+            shutil.rmtree(scratch, ignore_errors=True)
+    with open(os.path.join(seeded, "SENSITIVITY.json"), "w") as f:
+        json.dump({"tier": "quick", "wall_cap_s": wall, "results": table}, f, indent=1)
+    print(f"SENSITIVITY {len(table) - missed}/{len(table)} seeded changes caught at quick tier")
+    return 1 if missed else 0
+
+
 def main() -> int:
     ap = argparse.ArgumentParser()
-    ap.add_argument("cmd", choices=["determinism"])
+    ap.add_argument("cmd", choices=["determinism", "mutants"])
+    ap.add_argument("--only", default="")
+    ap.add_argument("--wall", type=int, default=100)
     ap.add_argument("--props", default="C05,C11")
     ap.add_argument("--n", type=int, default=200)
     ap.add_argument("--procs", default="16,4")
     ap.add_argument("--seed", type=int, default=int(os.environ.get("VERIF_SEED", "0")))
     a = ap.parse_args()
+    if a.cmd == "mutants":
+        return mutants([x for x in a.only.split(",") if x] or None, a.wall)
     if a.cmd == "determinism":
         return determinism(a.props.split(","), a.n, [int(x) for x in a.procs.split(",")], a.seed)
     return 2
